@@ -6,7 +6,8 @@
 //   R: on the compiled trees of walk_rt.h (real rRecur/rRecurp/rRecurs/rRecursp/rSelf/
 //      rEnabledBy macros) with a runtime object configured from the op line.
 //   T: prints the shape of a compiled tree (used by tools/props/c09.py only).
-// Observables: the (port, address) pairs handed to the walker callback in order, the string
+// Observables: the (port, address) pairs handed to the walker callback (as a sorted list: the
+// property fixes no order), the string
 // in the buffer afterwards, and for every pair which leaf callbacks run when the address is
 // sent back as a message (W: Ports::dispatch without location buffer and the harness' own
 // callbacks; R: Ports::dispatch with location buffer and the sugar callbacks).
@@ -18,6 +19,7 @@
 #include <memory>
 #include <map>
 #include <cstdarg>
+#include <algorithm>
 using namespace vh;
 
 static std::vector<std::string> g_hits;
@@ -175,8 +177,19 @@ static bool parse_spec(const std::string &s, size_t &i, wrt::Spec &out) {
         if (j == std::string::npos || j + 1 >= s.size()) return false;
         bytes n;
         if (!unhex(s.substr(i, j - i), n)) return false;
-        out.tog[std::string(n.begin(), n.end())] = s[j + 1] == '1';
-        i = j + 2;
+        // <name>=0 | <name>=1 (a toggle), <name>=i<decimal> (an integer parameter)
+        if (s[j + 1] == 'i') {
+            size_t e = j + 2;
+            if (e < s.size() && s[e] == '-') ++e;
+            size_t d0 = e;
+            while (e < s.size() && isdigit((unsigned char)s[e])) ++e;
+            if (e == d0) return false;
+            out.tog[std::string(n.begin(), n.end())] = (int)strtol(s.c_str() + j + 2, nullptr, 10);
+            i = e;
+        } else {
+            out.tog[std::string(n.begin(), n.end())] = s[j + 1] == '1';
+            i = j + 2;
+        }
         if (i < s.size() && s[i] == ',') { ++i; continue; }
         break;
     }
@@ -232,7 +245,38 @@ struct Rec : rtosc::RtData {
 };
 
 // ---------------------------------------------------------------- ops
-static std::string finish(const std::vector<std::string> &cs, Exact &buf) {
+// trailing tokens of an op line:  sz=<n>  the buffer_size handed to walk_ports (default: the size
+// of the block);  opt=<i.j.k>:<address-hex>{,…}  reports the statement leaves open (the toggle of a
+// table that is switched off): one report of each listed pair is dropped from the output
+struct Extra { size_t size; std::vector<std::string> opt; };
+static Extra extras(const std::vector<std::string> &w, size_t from, size_t block) {
+    Extra e{block, {}};
+    for (size_t i = from; i < w.size(); ++i) {
+        if (w[i].compare(0, 3, "sz=") == 0) {
+            size_t v = strtoul(w[i].c_str() + 3, nullptr, 10);
+            if (v < e.size) e.size = v;
+        } else if (w[i].compare(0, 4, "opt=") == 0) {
+            std::string l = w[i].substr(4);
+            size_t a = 0;
+            while (a < l.size() && l != "-") {
+                size_t b = l.find(',', a);
+                if (b == std::string::npos) b = l.size();
+                e.opt.push_back(l.substr(a, b - a));
+                a = b + 1;
+            }
+        }
+    }
+    return e;
+}
+// the calls as a sorted list (the statement fixes no order) without the reports left open
+static std::string finish(std::vector<std::string> cs, const Extra &ex, Exact &buf) {
+    for (auto &o : ex.opt)
+        for (size_t i = 0; i < cs.size(); ++i)
+            if (cs[i].compare(0, o.size(), o) == 0 && (cs[i].size() == o.size() || cs[i][o.size()] == '>')) {
+                cs.erase(cs.begin() + i);
+                break;
+            }
+    std::sort(cs.begin(), cs.end());
     // the string in the caller's buffer afterwards (running off the block is a crash)
     return "W " + std::to_string(cs.size()) + " " + join(cs, ",") + " B=" + hexs(buf.c());
 }
@@ -253,11 +297,12 @@ static std::string step(const std::string &line) {
         t.index();
         bool expand = w[3][0] == '1', ranges = w[3][1] == '1';
         Exact buf(mem);
+        Extra ex = extras(w, 4, buf.n);
         // the prefix the buffer starts with (the root '/' for an empty buffer)
         size_t pref = strnlen(buf.c(), buf.n);
         if (pref == 0) pref = 1;
         std::vector<Call> calls;
-        rtosc::walk_ports(root, buf.c(), buf.n, &calls, walker, expand, nullptr, ranges);
+        rtosc::walk_ports(root, buf.c(), ex.size, &calls, walker, expand, nullptr, ranges);
         std::vector<std::string> cs;
         for (auto &c : calls) {
             auto it = t.ix.find(c.port);
@@ -277,7 +322,7 @@ static std::string step(const std::string &line) {
             }
             cs.push_back(s);
         }
-        return finish(cs, buf);
+        return finish(cs, ex, buf);
     }
     if (w[0] == "R" && w.size() >= 5) {
         int id = atoi(w[1].c_str());
@@ -291,10 +336,11 @@ static std::string step(const std::string &line) {
         wrt::Instance inst;
         if (!inst.make(id, spec)) return "bad-spec";
         Exact buf(mem);
+        Extra ex = extras(w, 5, buf.n);
         size_t pref = strnlen(buf.c(), buf.n);
         if (pref == 0) pref = 1;
         std::vector<Call> calls;
-        rtosc::walk_ports(ports, buf.c(), buf.n, &calls, walker, true, inst.obj, false);
+        rtosc::walk_ports(ports, buf.c(), ex.size, &calls, walker, true, inst.obj, false);
         std::vector<std::string> cs;
         for (auto &c : calls) {
             std::string rel = c.addr.size() >= pref ? c.addr.substr(pref) : std::string();
@@ -318,7 +364,7 @@ static std::string step(const std::string &line) {
             }
             cs.push_back(s);
         }
-        return finish(cs, buf);
+        return finish(cs, ex, buf);
     }
     return "bad-op";
 }
